@@ -67,6 +67,7 @@ def generate_changing_data(
 
     p = len(means[0])
     x = multivariate_normal.rvs(np.zeros(p), np.eye(p), n, random_state)
+    x = np.reshape(x, (n, p))  # rvs drops dimensions of size 1.
     changepoints = [0] + changepoints + [n]
     for prev_cpt, next_cpt, mean, variance in zip(
         changepoints[:-1], changepoints[1:], means, variances
@@ -133,6 +134,7 @@ def generate_anomalous_data(
 
     p = len(means[0])
     x = multivariate_normal.rvs(np.zeros(p), np.eye(p), n, random_state)
+    x = np.reshape(x, (n, p))  # rvs drops dimensions of size 1.
     for anomaly, mean, variance in zip(anomalies, means, variances):
         start, end = anomaly
         x[start:end] = mean + np.sqrt(variance) * x[start:end]
